@@ -43,6 +43,28 @@ NONINTERFERENCE_ONLY = [
     ("choose_first", ["self.o1 <<= std.choose_first[Unsigned[3]]((self.c, self.a), (self.d, self.b), default=x)"]),
 ]
 
+# must be rejected; outside the reference interpreter, decided by the compile result (an accepted design is shown stale by the 2-safety query)
+REJECT_COMPILE_ONLY = [
+    # select_with without default must cover every value of the selector: 6 of 8 values of a 3 bit selector are not enough
+    ("select_with-no-default-3bit-partial", ['self.o1 <<= select_with(self.a.bitvector, {"000": self.a, "001": self.b, "010": x, "011": self.a, "100": self.b, "101": x})']),
+    ("select_with-no-default-3bit-unsigned-partial", ["self.o1 <<= select_with(self.a, {0: self.a, 1: self.b, 2: x, 3: self.a, 4: self.b, 5: x, 6: self.a})"]),
+]
+ACCEPT_COMPILE_ONLY = [
+    ("select_with-no-default-3bit-complete", ['self.o1 <<= select_with(self.a.bitvector, {"000": self.a, "001": self.b, "010": x, "011": self.a, "100": self.b, "101": x, "110": self.a, "111": self.b})']),
+]
+
+
+def _edge_process(body_after_edge):
+    """a process with its own clock-edge test: intermediates bound inside the edge-if must not be used after it (they are not
+    assigned on activations without an edge)"""
+    from ..seqcheck import SeqProgram
+    p = gen_seq.render(["pass"], reset="none")
+    head = p.source.split("        @std.sequential", 1)[0]
+    src = head + "        @std.sequential\n        def proc():\n            nonlocal x, y\n            if cohdl.rising_edge(self.clk):\n                t = self.a + self.b\n" + \
+        "".join("            " + ln + "\n" for ln in body_after_edge)
+    return SeqProgram(source=src, objs=p.objs, proc="proc", reset=None, entity=p.entity, meta={"body": body_after_edge})
+
+
 CORO_DEFUSE = [
     ("coro-cross-state", ["t = self.in0 & self.in1", "await self.in2", "self.trace <<= 1", "if t:", "    self.seen <<= 3"], "reject"),
     ("coro-same-state", ["await self.in2", "t = self.in0 & self.in1", "if t:", "    self.seen <<= 3"], "any"),
@@ -71,6 +93,12 @@ def run(tier: str) -> int:
             jobs.append((key, _coro(body), None, exp))
         for key, body in NONINTERFERENCE_ONLY:
             jobs.append((key, gen_seq.render(body), None, "any"))
+        for key, body in REJECT_COMPILE_ONLY:
+            jobs.append((key, gen_seq.render(body), None, "reject"))
+        for key, body in ACCEPT_COMPILE_ONLY:
+            jobs.append((key, gen_seq.render(body), None, "any"))
+        jobs.append(("edge-if-temporary-used-after", _edge_process(["self.o1 <<= t"]), None, "reject"))
+        jobs.append(("edge-if-temporary-used-inside", _edge_process(["    self.o1 <<= t"]), None, "any"))
         n_seq = 60 if tier == "quick" else 1200
         n_coro = 80 if tier == "quick" else 800
         for p in gen_seq.programs(tier, rep.seed)[:n_seq]:
